@@ -19,8 +19,11 @@ structure Hdr where
 
 def typeOPT : Nat := 41
 
-/-- `h.SetEDNS0(udpPayloadLen, extRCode, dnssecOK)` (fields Type, Class, TTL afterwards). -/
-def setEDNS0 (udpPayloadLen extRCode : Nat) (dnssecOK : Bool) : Hdr :=
+/-- `h.SetEDNS0(udpPayloadLen, extRCode, dnssecOK)` (fields Type, Class, TTL afterwards), applied to
+a header whose fields were `prior` before the call. The Go method OVERWRITES all three fields, so
+`prior` is not used: a reused header (earlier SetEDNS0 call, ordinary record TTL) behaves like a
+fresh one (`Proofs.C38.set_independent_of_prior`; for the translated code `gen_setEDNS0_eq`). -/
+def setEDNS0 (_prior : Hdr) (udpPayloadLen extRCode : Nat) (dnssecOK : Bool) : Hdr :=
   { typ := typeOPT
     cls := udpPayloadLen % 65536
     ttl := extRCode / 16 % 256 * 16777216 + (if dnssecOK then 32768 else 0) }
